@@ -46,6 +46,12 @@ CHECKS['C02'] = dict(technique='offline spline checker over recorded API calls v
 CHECKS['C18'] = dict(technique='differential runtime monitor (C++ wrapper vs wrapped C function) under ASan/UBSan with allocation-conservation monitor',
              text='Each C function with a callable xrlpp wrapper (found by compile probes) is called with an error slot and through the wrapper in a try block over seeded samples of the argument space incl. every failing class; values/objects must agree bit for bit, exception type and what() must match the C error, neither path may leak (allocation balance, LSan), and wrapper objects are used after the C originals are released.',
              note='Trusted: g++/libstdc++, harness/cppmon.cpp; NULL strings cannot be expressed through std::string and are skipped.', ref='2 C18')
+CHECKS['C05'] = dict(technique='offline identity checker over recorded API calls (both sides of each identity are library outputs)',
+             text='For Z 0..121 and energies at all table knots, edges +/-1e-9 and range ends, x angle grids, every total / per-atom / differential entry point is compared with the defining combination of its parts fetched from the same library (1e-13), and must fail exactly when a part fails; both data configurations (all Kissel aggregates must fail as shipped).',
+             note='Trusted: numpy; constants from the compiled macro probe.', ref='2 C05')
+CHECKS['C12'] = dict(technique='offline relation/quadrature checker over recorded API calls',
+             text='Thomson, Klein-Nishina and Compton-energy functions are sampled over 1e-6..1e6 keV x theta/phi grids; positivity, the solid-angle integral of DCS_KN (graded Gauss-Legendre with an error estimate), azimuthal averages, Thomson limits and bounds, the Compton-ratio form, monotonicity, evenness and periodicity are asserted on the returned values.',
+             note='Trusted: numpy quadrature (points whose quadrature error estimate exceeds 1e-11 are counted as inconclusive, none observed).', ref='2 C12')
 NOT_APPLICABLE = [
  dict(property_id='C20', reason='Fortran/Pascal/Cython/IDL/SWIG interface files cannot be compiled, loaded or executed in this sandbox (no gfortran, fpc, Cython, swig, IDL), so there is no execution for a runtime monitor to observe; comparing their text is static analysis, a different technique. The executable slices (Java constants, C++ header, exported symbols) are monitored as by-products of C19/C18/C03.'),
 ]
